@@ -32,7 +32,9 @@ INVS_ALL = ["TypeOK", "NoError", "WeightOne", "NoEquivDup", "OrbitWeight", "Dist
             "SavedWeightOne", "ReturnedWeightOne", "CollectedOnce", "AllCollected", "RestartEquivalence"]
 
 WORKERS = int(os.environ.get("VERIF_TLC_WORKERS", "16"))
-POOL = max(1, int(os.environ.get("VERIF_TLC_POOL", str(WORKERS // 4))))   # concurrent single-worker TLC runs
+POOL = max(1, int(os.environ.get("VERIF_TLC_POOL", str(WORKERS // 4))))   # concurrent single-worker TLC runs (simulate, traces)
+EXH_POOL = max(1, WORKERS // 4)                                          # concurrent exhaustive TLC runs ...
+EXH_WORKERS = max(1, WORKERS // EXH_POOL)                                # ... with that many workers each
 
 SERIAL_ACTS = ["MBeginProcess", "MEvalSerial", "MEndSerial", "MAppendPickle", "MUpdateFirst", "MUpdateIncr", "MSaveData", "MReturn"]
 PAR_ACTS = ["MBeginProcess", "MComplete", "MWaitFull", "MWaitTimeout", "MCollect", "MEndCollect", "MAppendPickle", "MUpdateFirst",
@@ -112,27 +114,46 @@ def mc_cfg(geo, nstep=2, niter=2, adptfac=1, parA=(False,), parB=(False,), dump=
     return "\n".join(lines) + "\n"
 
 
-def exhaustive(ctx, name, cfg, must_hold=True, timeout=3000, expect_actions=()):
-    rep = ctx.rep
-    st = tlc.run_tlc("MC_RunGrid.tla", cfg, ctx.tname(name), workers=WORKERS, timeout=timeout)
-    if st.get("timeout"):
-        raise MachineryError(f"TLC timed out on {name}")
-    if st.get("error") and not st.get("violation"):
-        raise MachineryError(f"TLC error on {name}: {st['error'][:400]}")
-    if must_hold:
-        if st["violation"]:
-            rep.violation(f"spec:{name}:{st['violation'][1]}",
-                          dict(what="TLC found a violation in the specification model", config=name, violated=st["violation"],
-                               tlc_out=os.path.join(st["meta"], "tlc.out")))
-        else:
-            tlc.check_not_vacuous(st, expect_actions, name)
-        rep.add_tlc(name, st)
-    else:
-        # sensitivity / reachability self-test: the model must violate the property
-        if not st["violation"]:
-            raise MachineryError(f"self-test failed: {name} should violate an invariant but TLC found none")
-        rep.part(name, expected_violation=st["violation"][1], distinct=st["distinct"])
-    return st
+class Exhaustive:
+    """the exhaustive TLC runs of a check: started in the background (they are independent of everything else), reported
+    in the order in which they were submitted"""
+
+    def __init__(self, ctx):
+        self.ctx = ctx
+        self.pool = ThreadPoolExecutor(max_workers=EXH_POOL)
+        self.jobs = []
+
+    def submit(self, name, cfg, must_hold=True, timeout=6000, expect_actions=()):
+        fut = self.pool.submit(tlc.run_tlc, "MC_RunGrid.tla", cfg, self.ctx.tname(name), workers=EXH_WORKERS, timeout=timeout)
+        self.jobs.append((name, fut, must_hold, expect_actions))
+
+    def collect(self):
+        rep = self.ctx.rep
+        jobs, self.jobs = self.jobs, []
+        for name, fut, must_hold, expect_actions in jobs:
+            st = fut.result()
+            if st.get("timeout"):
+                raise MachineryError(f"TLC timed out on {name}")
+            if st.get("error") and not st.get("violation"):
+                raise MachineryError(f"TLC error on {name}: {st['error'][:400]}")
+            if must_hold:
+                if st["violation"]:
+                    rep.violation(f"spec:{name}:{st['violation'][1]}",
+                                  dict(what="TLC found a violation in the specification model", config=name, violated=st["violation"],
+                                       tlc_out=os.path.join(st["meta"], "tlc.out")))
+                else:
+                    tlc.check_not_vacuous(st, expect_actions, name)
+                rep.add_tlc(name, st)
+            else:
+                # sensitivity / reachability self-test: the model must violate the property
+                if not st["violation"]:
+                    raise MachineryError(f"self-test failed: {name} should violate an invariant but TLC found none")
+                rep.part(name, expected_violation=st["violation"][1], distinct=st["distinct"])
+
+    def shutdown(self):
+        for _, fut, _, _ in self.jobs:
+            fut.cancel()
+        self.pool.shutdown(wait=True)
 
 
 def simulate_scripts(ctx, geo, cfg, name, num, depth, sd):
@@ -340,9 +361,9 @@ def large_worlds(ctx, rng):
     from ..rungrid_world import World
     rep = ctx.rep
     recs = []
-    plans = [("none", False, False), ("c4", True, False), ("none", False, True)]
+    plans = [("c4", True, False), ("none", False, True)]
     if ctx.thorough:
-        plans += [("c4v", True, True), ("mx", True, False), ("none", False, False)]
+        plans += [("none", False, False), ("c4v", True, True), ("mx", True, False), ("none", False, False)]
     wd = ctx.wd("large")
     nruns = 0
     for j, (group, sym, dump) in enumerate(plans):
@@ -467,6 +488,15 @@ def _finish_parts(ctx):
 
 
 def _check(ctx):
+    ex = Exhaustive(ctx)
+    try:
+        _check_body(ctx, ex)
+        ex.collect()
+    finally:
+        ex.shutdown()
+
+
+def _check_body(ctx, ex):
     pid, rep, thorough = ctx.pid, ctx.rep, ctx.thorough
     rng = random.Random(seed() * 1000003 + {"C10": 10, "C11": 11, "C12": 12}[pid])
     batch = Batch(ctx)
@@ -480,33 +510,34 @@ def _check(ctx):
              "(TLC simulate behaviours + seeded random) executed on the real run(), hook events validated by TLC "
              "against RunGridTrace (strict level first; traces it rejects are decided on the property level); a case is "
              "distinct by (geometry, scenario)")
-    selftest_binding(ctx, g1)
     mult = 6 if thorough else 1
 
     if pid == "C10":
         # all storage modes, refinement meshes, adpt_fac, symmetry settings; no restart
-        exhaustive(ctx, "c10_1d", mc_cfg(g1, niter=2, adptfac=1, withB=False), expect_actions=RUN_ACTIONS)
-        exhaustive(ctx, "c10_1d_fac2", mc_cfg(g1, niter=2, adptfac=2, withB=False, allorders=True), expect_actions=RUN_ACTIONS)
-        exhaustive(ctx, "c10_1d_ndiv3", mc_cfg(GEOS["1d_inv3"], niter=2, adptfac=1, withB=False), expect_actions=RUN_ACTIONS)
-        exhaustive(ctx, "c10_2d_c4", mc_cfg(GEOS["2d_c4"], niter=2, adptfac=1, withB=False, allowA=(False,), dump=(False,)),
-                   expect_actions=RUN_ACTIONS)
-        if thorough:
-            exhaustive(ctx, "c10_2d_c4v_fac2", mc_cfg(GEOS["2d_c4v"], niter=2, adptfac=2, withB=False, allorders=False),
-                       expect_actions=RUN_ACTIONS, timeout=6000)
-            exhaustive(ctx, "c10_1d_n6", mc_cfg(GEOS["1d_inv6"], niter=3, adptfac=1, withB=False, allowA=(True,), dump=(False, True)),
-                       expect_actions=RUN_ACTIONS, timeout=6000)
-        exhaustive(ctx, "c10_1d_one", mc_cfg(GEOS["1d_one"], niter=3, adptfac=1, withB=False), expect_actions=RUN_ACTIONS)
-        exhaustive(ctx, "c10_2d_h3", mc_cfg(Geometry(2, 3, 3, 2, "h3"), niter=2, adptfac=1, withB=False, allowA=(True,), dump=(True,),
-                                            sym=(True,), allorders=False), expect_actions=RUN_ACTIONS)
+        ex.submit("c10_1d", mc_cfg(g1, niter=2, adptfac=1, withB=False), expect_actions=RUN_ACTIONS)
+        ex.submit("c10_1d_fac2", mc_cfg(g1, niter=2, adptfac=2, withB=False, allorders=thorough), expect_actions=RUN_ACTIONS)
+        ex.submit("c10_1d_ndiv3", mc_cfg(GEOS["1d_inv3"], niter=2, adptfac=1, withB=False), expect_actions=RUN_ACTIONS)
+        ex.submit("c10_2d_c4", mc_cfg(GEOS["2d_c4"], niter=2, adptfac=1, withB=False, allowA=(False,), dump=(False,)),
+                  expect_actions=RUN_ACTIONS)
+        ex.submit("c10_1d_one", mc_cfg(GEOS["1d_one"], niter=3, adptfac=1, withB=False), expect_actions=RUN_ACTIONS)
+        ex.submit("c10_2d_h3", mc_cfg(Geometry(2, 3, 3, 2, "h3"), niter=2, adptfac=1, withB=False, allowA=(True,), dump=(True,),
+                                      sym=(True,), allorders=False), expect_actions=RUN_ACTIONS)
         # "discarded" storage mode: no refinement, nothing kept (adpt_num_iter = 0, no allow_restart)
         disc = dict(niter=0, adptfac=1, withB=False, allowA=(False,), dump=(False,), parA=(False, True))
-        exhaustive(ctx, "c10_discard", mc_cfg(g1, **disc),
-                   expect_actions=["StartA", "MBeginProcess", "MEvalSerial", "MCollect", "MUpdateFirst", "MSaveData", "MReturn"])
-        exhaustive(ctx, "c10_discard_reached", mc_cfg(g1, invs=["NeverCleared"], props=(), **disc), must_hold=False)
+        ex.submit("c10_discard", mc_cfg(g1, **disc),
+                  expect_actions=["StartA", "MBeginProcess", "MEvalSerial", "MCollect", "MUpdateFirst", "MSaveData", "MReturn"])
+        ex.submit("c10_discard_reached", mc_cfg(g1, invs=["NeverCleared"], props=(), **disc), must_hold=False)
+        if thorough:
+            ex.submit("c10_2d_c4v_fac2", mc_cfg(GEOS["2d_c4v"], niter=2, adptfac=2, withB=False, allorders=False),
+                      expect_actions=RUN_ACTIONS, timeout=12000)
+            ex.submit("c10_1d_n6", mc_cfg(GEOS["1d_inv6"], niter=3, adptfac=1, withB=False, allowA=(True,), dump=(False, True)),
+                      expect_actions=RUN_ACTIONS, timeout=12000)
+        selftest_binding(ctx, g1)
         if ctx.traces_off:
             return
-        plan = [("1d_inv", 1, 2, 10), ("1d_inv", 2, 2, 6), ("1d_inv3", 1, 2, 6), ("2d_c4", 1, 2, 6), ("2d_c4v", 2, 2, 6),
-                ("1d_none", 1, 2, 4), ("1d_one", 1, 3, 4), ("2d_one", 1, 2, 4), ("2d_h3", 1, 3, 4), ("2d_h3m", 2, 3, 4)]
+        plan = [("1d_inv", 1, 2, 6), ("1d_inv", 2, 2, 4), ("1d_inv3", 1, 2, 4), ("2d_c4", 1, 2, 4), ("1d_one", 1, 3, 4), ("2d_h3m", 2, 3, 4)]
+        if thorough:
+            plan += [("2d_c4v", 2, 2, 6), ("1d_none", 1, 2, 4), ("2d_one", 1, 2, 4), ("2d_h3", 1, 3, 4)]
         sims = []
         for gname, fac, niter, num in plan:
             geo = GEOS[gname]
@@ -529,46 +560,58 @@ def _check(ctx):
 
     elif pid == "C11":
         acts = RUN_ACTIONS + B_ACTIONS
-        exhaustive(ctx, "c11_1d", mc_cfg(g1, niter=2, adptfac=1, restart_iters=(0, 1, 2)), expect_actions=acts + ["RestartBBack"])
-        exhaustive(ctx, "c11_1d_v0", mc_cfg(g1, niter=2, adptfac=1, sorted_listing=False), must_hold=False)
-        exhaustive(ctx, "c11_1d_fac2", mc_cfg(g1, niter=2, adptfac=2, allorders=False, allowA=(True,)), expect_actions=acts)
+        g2 = Geometry(1, 2, 2, 3, "inv")
+        ex.submit("c11_1d", mc_cfg(g1, niter=2, adptfac=1, restart_iters=(0, 1, 2)), expect_actions=acts + ["RestartBBack"])
+        ex.submit("c11_1d_v0", mc_cfg(g1, niter=2, adptfac=1, sorted_listing=False), must_hold=False)
+        # three iterations in legs of at most one iteration: at least two successive restarts
+        ex.submit("c11_legs", mc_cfg(g2, niter=3, adptfac=1, allowA=(True,), sym=(True,), dump=(False, True), allorders=False,
+                                     maxleg=1, restart_iters=(1, 2)), expect_actions=acts + ["RestartBBack"])
         if thorough:
-            exhaustive(ctx, "c11_1d_3it", mc_cfg(GEOS["1d_inv6"], niter=3, adptfac=1, allowA=(True,), sym=(True,)),
-                       expect_actions=acts, timeout=6000)
-            exhaustive(ctx, "c11_2d_c4", mc_cfg(GEOS["2d_c4"], niter=2, adptfac=1, allowA=(True,), sym=(True,), dump=(False, True)),
-                       expect_actions=acts, timeout=6000)
+            ex.submit("c11_1d_fac2", mc_cfg(g1, niter=2, adptfac=2, allorders=False, allowA=(True,)), expect_actions=acts)
+            ex.submit("c11_1d_3it", mc_cfg(GEOS["1d_inv6"], niter=3, adptfac=1, allowA=(True,), sym=(True,)),
+                      expect_actions=acts, timeout=12000)
+            ex.submit("c11_2d_c4", mc_cfg(GEOS["2d_c4"], niter=2, adptfac=1, allowA=(True,), sym=(True,), dump=(False, True)),
+                      expect_actions=acts, timeout=12000)
+        selftest_binding(ctx, g1)
         if ctx.traces_off:
             return
-        plan = [("1d_inv", 1, 2, 14), ("1d_inv", 2, 2, 6), ("2d_c4", 1, 2, 6), ("1d_inv6", 1, 3, 6)]
+        # (geometry, adpt_fac, iterations, behaviours, MaxLeg)
+        plan = [("1d_inv", 1, 2, 8, 9), ("2d_c4", 1, 2, 4, 9), ("1d_inv6", 1, 3, 6, 1)]
+        if thorough:
+            plan += [("1d_inv", 2, 2, 6, 9), ("1d_inv6", 1, 3, 6, 9)]
         sims = []
-        for gname, fac, niter, num in plan:
+        for gname, fac, niter, num, maxleg in plan:
             geo = GEOS[gname]
             cfg = mc_cfg(geo, niter=niter, adptfac=fac, view=False, invs=["RestartEquivalence"], props=(), allorders=False,
-                         restart_iters=(0, 1, 1, 2))
-            sims.append((f"c11_{gname}_{fac}", geo, cfg, num * mult, 60 * (niter + 1)))
+                         restart_iters=(0, 1, 1, 2), maxleg=maxleg)
+            sims.append((f"c11_{gname}_{fac}_{maxleg}", geo, cfg, num * mult, 80 * (niter + 1)))
         scripts = simulate_all(ctx, sims)
-        for gname, fac, niter, num in plan:
+        for gname, fac, niter, num, maxleg in plan:
             geo = GEOS[gname]
-            run_scripts(ctx, batch, geo, scripts[f"c11_{gname}_{fac}"], f"c11_{gname}_{fac}", adpt_fac=fac)
-            run_random(ctx, batch, geo, rng, (num // 2) * mult, niter, f"c11_{gname}_{fac}", adpt_fac=fac, allow_par=False)
+            key = f"c11_{gname}_{fac}_{maxleg}"
+            run_scripts(ctx, batch, geo, scripts[key], key, adpt_fac=fac)
+            run_random(ctx, batch, geo, rng, (num // 2) * mult, niter, key, adpt_fac=fac, allow_par=False)
         batch.validate("c11")
-        require_classes(ctx, ["tlc-behaviour", "random", "restart", "listing_permuted", "restart_back_or_explicit", "dump"])
+        require_classes(ctx, ["tlc-behaviour", "random", "restart", "two_restarts", "listing_permuted", "restart_back_or_explicit", "dump"])
 
     elif pid == "C12":
         gp = Geometry(1, 5, 2, 1, "none")
         acts = ["StartA", "RefineA"] + PAR_ACTS
         par1 = dict(niter=1, parA=(True,), dump=(False,), allowA=(False,), sym=(False,), withB=False, allorders=False)
-        exhaustive(ctx, "c12_n5", mc_cfg(gp, nstep=2, **par1), expect_actions=acts)
-        exhaustive(ctx, "c12_n5_first", mc_cfg(gp, nstep=2, waitfirst=True, **par1), expect_actions=acts)
-        exhaustive(ctx, "c12_n5_v0", mc_cfg(gp, nstep=2, acc=False, **par1), must_hold=False)
-        exhaustive(ctx, "c12_n4_dump", mc_cfg(g1, nstep=1, niter=1, parA=(True,), dump=(True, False), allowA=(True,), sym=(True,),
-                                              withB=False), expect_actions=acts)
+        ex.submit("c12_n5", mc_cfg(gp, nstep=2, **par1), expect_actions=acts)
+        ex.submit("c12_n5_first", mc_cfg(gp, nstep=2, waitfirst=True, **par1), expect_actions=acts)
+        ex.submit("c12_n5_v0", mc_cfg(gp, nstep=2, acc=False, **par1), must_hold=False)
+        ex.submit("c12_n4_dump", mc_cfg(g1, nstep=1, niter=1, parA=(True,), dump=(True, False), allowA=(True,), sym=(True,),
+                                        withB=False), expect_actions=acts)
         if thorough:
             g6 = Geometry(1, 6, 2, 1, "none")
-            exhaustive(ctx, "c12_n6_s2", mc_cfg(g6, nstep=2, **par1), expect_actions=acts, timeout=6000)
-            exhaustive(ctx, "c12_n6_s3", mc_cfg(g6, nstep=3, **par1), expect_actions=acts, timeout=6000)
+            ex.submit("c12_n6_s2", mc_cfg(g6, nstep=2, **par1), expect_actions=acts, timeout=12000)
+            ex.submit("c12_n6_s3", mc_cfg(g6, nstep=3, **par1), expect_actions=acts, timeout=12000)
+        selftest_binding(ctx, g1)
         if not ctx.traces_off:
-            plan = [(gp, 2, 1, 12), (Geometry(1, 6, 2, 1, "none"), 3, 1, 6), (g1, 1, 2, 6), (GEOS["2d_c4"], 2, 2, 6)]
+            plan = [(gp, 2, 1, 8), (Geometry(1, 6, 2, 1, "none"), 3, 1, 4), (g1, 1, 2, 4)]
+            if thorough:
+                plan += [(GEOS["2d_c4"], 2, 2, 6)]
             sims = []
             for j, (geo, ncpu, niter, num) in enumerate(plan):
                 cfg = mc_cfg(geo, nstep=ncpu, niter=niter, parA=(True,), parB=(True,), withB=False, view=False,
@@ -587,6 +630,7 @@ def _check(ctx):
                                      schedule=RS.random_schedule(rng, first_n=(i % 2 == 0)), ncpu=ncpu)
                     batch.add(geo, ncpu, w, w.events, dict(origin="random-schedule", index=i, seed=seed(), ncpu=ncpu, mode=m, nit=niter),
                               classes={"random-schedule", "parallel"} | ({"dump"} if d else set()))
+                    w.geo.release()
                     rep.case((geo.key(), "randsched", j, i, seed()))
                 shutil.rmtree(wd, ignore_errors=True)
             batch.validate("c12")
